@@ -85,3 +85,19 @@ def run(prop, info, gen_path, R, seed, extra_cov, undecided_reasons, mine):
     extra_cov['second_seed'] = {'seed': (seed or 0) + 7919, 'same_verdict': f1 == f2, 'verified': res2.verified, 'errors': res2.errors, 'wall_s': round(res2.wall_s, 1)}
     if f1 != f2:
         undecided_reasons.append('unstable: verdict differs between solver seeds (%s vs %s)' % (f1[:3], f2[:3]))
+
+
+    # ---- 4. second back end (bounded, never counted as proof): Kani/CBMC on the compiled crate, executable specification
+    #         vs real code on symbolic inputs, for the scenarios CBMC finishes in seconds here
+    scs = PROPS[prop].get('kani_scenarios', [])
+    if scs:
+        from . import kani
+        d, _, _ = kani.prepare(info, subdir='cex')
+        rows = []
+        for sc in scs:
+            r, out = kani.run_harness(d, 'cex::' + sc, timeout=900)
+            rows.append({'harness': 'cex::' + sc, 'ok': r['ok'], 'failed': r['failed'], 'cbmc_checks': r['checks'], 'wall_s': r['wall_s'], 'solver_s': r['solver_s'],
+                         'bound': {'word': 'all words < 2048 (complete)', 'bits': 'all bit streams of <= 24 bits with one clear() at any position', 'events': 'all sequences of <= 3 key events with any mode schedule'}.get(sc, '')})
+            if r['failed']:
+                undecided_reasons.append('back ends disagree: Kani harness cex::%s fails although Verus discharged every obligation' % sc)
+        extra_cov['kani_second_back_end_(bounded)'] = rows
